@@ -1333,7 +1333,10 @@ void run_handoff_episode(uint64_t seed, uint64_t e) {
   vf::Rng r(vf::mix(seed, e, 0x4a4d));
   auto h = std::make_unique<Handoff>();
   h->seed = vf::mix(seed, e);
-  h->rounds = r.range(50, 300);
+  // Many rounds: every round is a natural race between the waiter's "check the word, then suspend" and the
+  // waker's "bump the word, wake_all". The seeded change C13-a2 (value check hoisted out of the futex mutex)
+  // loses a wake-up once in 10^3..10^5 such rounds and escaped the former 50-300 rounds per episode.
+  h->rounds = (VF_TSAN || VF_ASAN) ? r.range(800, 4000) : r.range(6000, 30000);
   Pool pool;
   int nw = int(r.range(2, 4));
   std::string pol = vf::draw_policy(r, kStallPointsFutex, 200, 3000);
@@ -1351,7 +1354,15 @@ void run_handoff_episode(uint64_t seed, uint64_t e) {
       vf::violation("futex-wake_all-count-mismatch", "wake_all woke more waiters than exist", cfg);
     }
     woke += uint64_t(ret);
-    // the word changed and wake_all returned: the waiter either never suspended or was resumed
+    // the word changed and wake_all returned: the waiter either never suspended or was resumed.
+    // Spin first (the next bump should race with the waiter's next check-then-suspend, a 50 us poll
+    // would always let the waiter win), then fall back to the polling wait that feeds the stuck rule.
+    {
+      uint64_t t0 = __rdtsc();
+      while (h->rounds_done.load(ACQ) < i + 1 && __rdtsc() - t0 < 300000) _mm_pause();
+      // draw the bump's delay around the length of the waiter's path from "round done" to "check under the mutex"
+      if (h->rounds_done.load(ACQ) >= i + 1) spin_cycles(r.below(r.chance(1, 2) ? 800 : 6000));
+    }
     wait_until([&] { return h->rounds_done.load(ACQ) >= i + 1; }, "stuck:futex-wait-missed-wake");
   }
   wait_until([&] { return fut.ready(); }, "stuck:futex-woken-waiter-never-ran");
